@@ -16,7 +16,7 @@ import (
 )
 
 func main() {
-	hk.Main("C17", runC17, map[string]hk.Gosyncer{"PayloadForbid": syncPayloadForbid, "ContentTypes": syncContentTypes})
+	hk.Main("C17", runC17, map[string]hk.Gosyncer{"PayloadForbid": syncPayloadForbid, "ContentTypes": syncContentTypes, "SniffBuf": syncSniffBuf})
 }
 
 func runC17(r *hk.Run) {
